@@ -142,11 +142,11 @@ prop('C18', units=['conv'], level='proof',
      not_covered=['sheet_to_txs / SheetReader / read_sheet_header', 'sum over a whole sheet of signed shares == net cash flow'],
      witnesses=['D7', 'D17'])
 
-prop('C20', units=['pdf'], level='proof',
-     technique='Verus: safe_page_chunks_with_remainder_pn (every page 1..=n in some group, none out of range, no empty group) and OptimizedPageIter::next (never requests an unloaded / non-existent page, no unwrap/index failure)',
-     level_text='Deductive proof (Verus) of the page-order half of the property for all hint lists and page counts. The FMV regex state machine ("each holding once") is not covered.',
-     level_note='load_pages (pdf text extraction) and get_num_pages < u32::MAX are assumed; Iterator::next is verified as an inherent method (rule R23); hole_missing_pages / hole_to_deque paraphrase std iterator chains.',
-     not_covered=['FmvParseSm regex state machine', 'pdf text extraction'],
+prop('C20', units=['pdf', 'fmv'], level='proof',
+     technique='Verus: safe_page_chunks_with_remainder_pn (every page 1..=n in some group, none out of range, no empty group) and OptimizedPageIter::next (never requests an unloaded / non-existent page, no unwrap/index failure); FmvParseSm (parse_page, gather_security_line, gather_total_line, finalize_security_fmv, parse_fmvs_from_page) against the spec function `run` (line-by-line reading), and theorem_layout / theorem_layout_empty: on every table of the documented layout `run` yields each row exactly once, in order, with the table total',
+     level_text='Deductive proof (Verus). Page order: for all hint lists and page counts. Allocation table: the real state machine is verified against a recursive spec function over the lines of the page, for all pages; and for all pages whose table follows the documented layout (stated declaratively: header line, rows = first line + continuation lines whose joined text parses, a total-looking line inside a row only while the text so far does not parse, total row) that function returns exactly the rows, once each, and the total. What a regular expression matches / captures, str::trim/contains/lines and the meaning of one row text are uninterpreted functions of the text.',
+     level_note='load_pages (pdf text extraction) and get_num_pages < u32::MAX are assumed; Iterator::next is verified as an inherent method (rule R23); hole_missing_pages / hole_to_deque paraphrase std iterator chains. fmv: regex / str stand-ins of shim/fmv_stubs.rs (group 1 of SEC_FIRST_ROW_RE and TOTAL_ROW_RE takes part in every match); security_text_to_fmv and parse_large_decimal are assumed to be functions of their text.',
+     not_covered=['what SEC_DATA_RE extracts from a row text (description / allocation / value split)', 'month line and page selection of parse_statement_text', 'pdf text extraction'],
      witnesses=[])
 
 
@@ -157,3 +157,4 @@ prop('C19', units=['etr'], level='proof',
      not_covered=['regex parsers of benefit / trade confirmation PDFs', 'find_sell_to_cover_trade_set (same security, share counts adding up to the sold shares)', 'memo text of the rows'],
      witnesses=['D8'])
 ALL_UNITS.append('etr')
+ALL_UNITS.append('fmv')
